@@ -40,6 +40,9 @@ type Case struct {
 	IDName     string  `json:"idName,omitempty"`
 	BucketName string  `json:"bucketName,omitempty"`
 	Producers  [][]POp `json:"producers"`
+	// SharedBurst > 0: every producer additionally reports SharedBurst distinct values through
+	// ONE counter, ONE gauge and ONE timer handle shared by all producers
+	SharedBurst int `json:"sharedBurst,omitempty"`
 }
 
 func tagStr() *rapid.Generator[pbt.S] {
@@ -83,6 +86,9 @@ func gen(t *rapid.T) Case {
 			ops = append(ops, op)
 		}
 		c.Producers = append(c.Producers, ops)
+	}
+	if np >= 2 && rapid.IntRange(0, 5).Draw(t, "shared") == 0 {
+		c.SharedBurst = rapid.SampledFrom([]int{50, 500, 3000}).Draw(t, "sharedBurst")
 	}
 	return c
 }
@@ -134,11 +140,38 @@ func run(c Case) (pbt.Outcome, error) {
 	var want []reported
 	tagsets := map[string]bool{}
 	var wg sync.WaitGroup
+	var sharedC tally.CachedCount
+	var sharedG tally.CachedGauge
+	var sharedT tally.CachedTimer
+	if c.SharedBurst > 0 {
+		sharedC = r.AllocateCounter("shared-c", map[string]string{"s": "1"})
+		sharedG = r.AllocateGauge("shared-g", nil)
+		sharedT = r.AllocateTimer("shared-t", nil)
+	}
+	start := make(chan struct{})
 	for pi, ops := range c.Producers {
 		pi, ops := pi, ops
 		wg.Add(1)
 		go func() {
 			defer wg.Done()
+			<-start
+			if c.SharedBurst > 0 {
+				local := make([]reported, 0, 3*c.SharedBurst)
+				for k := 0; k < c.SharedBurst; k++ {
+					v := int64(pi)*10000000 + int64(k) + 1
+					sharedC.ReportCount(v)
+					sharedG.ReportGauge(float64(v))
+					sharedT.ReportTimer(time.Duration(v))
+					ret := time.Now().UnixNano()
+					local = append(local,
+						reported{canon: m3h.Canon(m3thrift.Metric{Name: "shared-c", Tags: []m3thrift.MetricTag{{Name: "s", Value: "1"}}, Value: m3thrift.MetricValue{MetricType: m3thrift.MetricType_COUNTER, Count: v}}), ret: ret},
+						reported{canon: m3h.Canon(m3thrift.Metric{Name: "shared-g", Value: m3thrift.MetricValue{MetricType: m3thrift.MetricType_GAUGE, Gauge: float64(v)}}), ret: ret},
+						reported{canon: m3h.Canon(m3thrift.Metric{Name: "shared-t", Value: m3thrift.MetricValue{MetricType: m3thrift.MetricType_TIMER, Timer: v}}), ret: ret})
+				}
+				wantMu.Lock()
+				want = append(want, local...)
+				wantMu.Unlock()
+			}
 			for oi, op := range ops {
 				if op.K == "flush" {
 					r.Flush()
@@ -220,6 +253,7 @@ func run(c Case) (pbt.Outcome, error) {
 			}
 		}()
 	}
+	close(start)
 	wg.Wait()
 	if err := r.Close(); err != nil {
 		errs.Addf("Close returned %v", err)
@@ -316,6 +350,9 @@ func run(c Case) (pbt.Outcome, error) {
 	}
 	out.NonTrivial = len(tagsets) >= 2 && nb >= 2
 	out.Classes = append(out.Classes, fmt.Sprintf("dests=%d", c.Dests), fmt.Sprintf("producers=%d", len(c.Producers)))
+	if c.SharedBurst > 0 {
+		out.Classes = append(out.Classes, "shared-handles")
+	}
 	if math.IsNaN(0) {
 		out.Classes = nil
 	}
@@ -325,7 +362,7 @@ func run(c Case) (pbt.Outcome, error) {
 func TestC13(t *testing.T) {
 	pbt.Main(t, pbt.Prop[Case]{
 		ID: "C13", Name: "delivery",
-		Rule: "rapid-generated M3 reporter configurations (Compact/Binary, 1..3 real loopback destinations, queue size 1..4096, common tags, packet size, default or custom bucket tag names) and 1..4 producer goroutines (real threads) started right after NewReporter, each a history of 1..12 Allocate*+Report*/Flush ops with arbitrary byte-string names, tag keys/values drawn from an alphabet rich in '=' (so that different tag maps have equal 'k=v' strings), full-range int64/float64 values, histogram buckets of strictly increasing specs, repeats; then Close. Oracle per destination: every datagram decodes as exactly one well-formed one-way message with the configured common tags (service and env included); the multiset of decoded non-internal metrics (name, kind, value bits, tag set, bucket tags present) equals the multiset reported; timestamps within [construction, return of the report call] (+1ms); Close returned only after every emitted batch had been sent (all datagrams present). Non-trivial: >=2 distinct tag sets and >=2 datagrams. Distinct: FNV-64 of the case JSON.",
+		Rule: "rapid-generated M3 reporter configurations (Compact/Binary, 1..3 real loopback destinations, queue size 1..4096, common tags, packet size, default or custom bucket tag names) and 1..4 producer goroutines (real threads) started right after NewReporter, each a history of 1..12 Allocate*+Report*/Flush ops (and, in a sixth of the cases, bursts of 50..3000 distinct values per producer through ONE counter, gauge and timer handle shared by all producers) with arbitrary byte-string names, tag keys/values drawn from an alphabet rich in '=' (so that different tag maps have equal 'k=v' strings), full-range int64/float64 values, histogram buckets of strictly increasing specs, repeats; then Close. Oracle per destination: every datagram decodes as exactly one well-formed one-way message with the configured common tags (service and env included); the multiset of decoded non-internal metrics (name, kind, value bits, tag set, bucket tags present) equals the multiset reported; timestamps within [construction, return of the report call] (+1ms); Close returned only after every emitted batch had been sent (all datagrams present). Non-trivial: >=2 distinct tag sets and >=2 datagrams. Distinct: FNV-64 of the case JSON.",
 		Gen:  gen, Run: run,
 	})
 }
